@@ -185,6 +185,16 @@ def runningClockOwners (w : World) (l : List Nat) : List Trx :=
     | some t => if t.hasClock && t.running then some t else none
     | none => none)
 
+/-- is transceiver `i` a running clock owner? -/
+def isRunningClockOwner (w : World) (i : Nat) : Bool :=
+  match w.trxs[i]? with
+  | some t => t.hasClock && t.running
+  | none => false
+
+/-- the running clock owners of the application, in `trx_list` order -/
+def runningClockOwnerIdx (w : World) : List Nat :=
+  (List.range w.trxs.length).filter (isRunningClockOwner w)
+
 /-- clock indications the property demands at a tick of frame `fn`: one per running clock owner,
 every `indPeriod` frames -/
 def clockInds (w : World) (fn : Nat) : List Dgram :=
